@@ -17,12 +17,16 @@ def run(tier):
                      "case: %s\n%s\n(the table is coq/theories/Gen/LowerTables.v / ResolverTables.v as regenerated from /repo)" % (key, what))
     nprog = 120 if tier == "quick" else 20000
     ne, stats, distinct_out, srcs = execstream.run(ck, nprog, ck.seed, level=1)
-    ck.log("exec: %d runs %s, %d distinct outputs" % (ne, dict(stats), distinct_out))
+    ck.log("exec (scalars, control flow, calls): %d runs %s, %d distinct outputs" % (ne, dict(stats), distinct_out))
+    ne2, stats2, distinct_out2, srcs2 = execstream.run(ck, nprog, ck.seed + 1, level=2, label="exec2")
+    ck.log("exec (arrays, views, slice pointers, pointers, address assignment): %d runs %s, %d distinct outputs" % (ne2, dict(stats2), distinct_out2))
+    ne += ne2; distinct_out += distinct_out2
+    for k, v in stats2.items(): stats[k] += v
     if not proof_ok:
         ck.violation("tie-broken:proof", "Props/C01.v no longer checks against the regenerated tables", getattr(ck, "proof_output", "")[-2500:])
     ck.coverage.update(
         evaluations=n + ne, distinct_nontrivial=accepted + distinct_out, exec_programs=ne, exec_stats=dict(stats), exec_distinct_outputs=distinct_out,
-        rule="exec stream: generated well-typed terminating programs (all primitive types, casts, if/else, goto, counted loops, nested blocks, by-value calls, print!) in random layouts, lli output and exit status vs the extracted interpreter on the generator's tree, every 4th program also in a second layout; distinct = distinct outputs; opcodes stream: every (binary op x 13 types), (unary op x 13), (comparison x 13), (cast 13x13) compiled by the real compiler; non-trivial = accepted pair whose IR opcode is compared with the generated table",
+        rule="exec stream: generated well-typed terminating programs (all primitive types, casts, if/else, goto, counted loops, nested blocks, by-value calls, print!; second half also arrays with literal and loop-driven indexing, |x|, view / slice-pointer / pointer parameters, pointer variables, address assignment) in random layouts, lli output and exit status vs the extracted interpreter on the generator's tree, every 4th program also in a second layout; distinct = distinct outputs; opcodes stream: every (binary op x 13 types), (unary op x 13), (comparison x 13), (cast 13x13) compiled by the real compiler; non-trivial = accepted pair whose IR opcode is compared with the generated table",
         opcode_mismatches=len(mism),
         samples=[dict(case="exec", source=srcs[0][1]), dict(case="B / i8", source="fn f(a: i8, b: i8) -> i8 { return: a / b }", expected="sdiv"),
                  dict(case="K i8 u32", source="fn f(a: i8) -> u32 { return: a as u32 }", expected="sext")])
